@@ -328,3 +328,77 @@ def coq_ivals(ivs):
         else:
             out.append("XL [" + "; ".join("[" + "; ".join(coq_pval(p) for p in row) + "]" for row in iv[1]) + "]")
     return "[" + "; ".join(out) + "]"
+
+
+# ---------------------------------------------------------------------------------------------------
+# raw wire values, chosen from the flat descriptors alone (no library type is constructed), and an
+# independent encoder for them: what an NCP could put on the wire, undefined enum values included
+# ---------------------------------------------------------------------------------------------------
+def _gen_prim(p, rng, mode):
+    k, n = p
+    if k == "U":
+        lo, hi = 0, (1 << (8 * n)) - 1
+    elif k == "S":
+        lo, hi = -(1 << (8 * n - 1)), (1 << (8 * n - 1)) - 1
+    else:
+        mx = min(256 ** n - 2, 300 if n > 1 else 254)
+        ln = 0 if mode == "lo" else mx if mode == "hi" else rng.choice([0, 1, rng.randint(0, min(mx, 40))])
+        return bytes(rng.randrange(256) for _ in range(ln))
+    if mode == "lo":
+        return lo
+    if mode == "hi":
+        return hi
+    return rng.choice([lo, hi, rng.randint(lo, hi), rng.randint(lo, hi), rng.randint(0, min(hi, 3))])
+
+
+def gen_flat(items, rng, mode):
+    """item values in the shape of flat_schema_values: ('P', v) | ('L', rows) | ('NONE',)"""
+    out = []
+    for i, it in enumerate(items):
+        if it[0] == "P":
+            out.append(("P", _gen_prim(it[1], rng, mode)))
+        elif it[0] == "PAD":
+            out.append(("NONE",))
+        elif it[0] == "LV":
+            mx = min(256 ** it[1] - 1, 255)
+            n = 0 if mode == "lo" else min(mx, 40) if mode == "hi" else rng.randint(0, 5)
+            out.append(("L", [[_gen_prim(p, rng, "rand" if mode == "hi" else mode) for p in it[2]] for _ in range(n)]))
+        elif it[0] == "FX":
+            out.append(("L", [[_gen_prim(p, rng, mode) for p in it[2]] for _ in range(it[1])]))
+        elif it[0] == "REST":
+            n = 0 if mode == "lo" else 30 if mode == "hi" else rng.randint(0, 5)
+            out.append(("L", [[_gen_prim(p, rng, "rand" if mode == "hi" else mode) for p in it[1]] for _ in range(n)]))
+        elif it[0] == "OPT":
+            out.append(("NONE",) if mode == "lo" or rng.random() < 0.3 else ("L", [[_gen_prim(p, rng, mode) for p in it[1]]]))
+        elif it[0] == "REQ0":
+            first = out[0][1] if out and out[0][0] == "P" else None
+            out.append(("L", [[_gen_prim(p, rng, mode) for p in it[1]]]) if first == 0 else ("NONE",))
+        else:
+            raise Unsupported(str(it))
+    return out
+
+
+def _enc_prim(p, v):
+    k, n = p
+    if k == "U":
+        return int(v).to_bytes(n, "little")
+    if k == "S":
+        return (int(v) % (1 << (8 * n))).to_bytes(n, "little")
+    return len(v).to_bytes(n, "little") + bytes(v)
+
+
+def flat_encode(items, vals):
+    out = b""
+    for it, v in zip(items, vals):
+        if it[0] == "P":
+            out += _enc_prim(it[1], v[1])
+        elif it[0] == "PAD" or v[0] == "NONE":
+            continue
+        else:
+            ps = it[2] if it[0] in ("LV", "FX") else it[1]
+            if it[0] == "LV":
+                out += len(v[1]).to_bytes(it[1], "little")
+            for row in v[1]:
+                for p, x in zip(ps, row):
+                    out += _enc_prim(p, x)
+    return out
